@@ -172,7 +172,7 @@ class TLCResult:
 
 def tlc(spec, cfg, rundir, workers=None, timeout=600, simulate=None, depth=None,
         coverage=False, env=None, dfs=False, extra="", xmx="8g", seed=None, tag=None,
-        deadlock=None, dump=None):
+        deadlock=None, dump=None, library=None):
     """Run TLC on spec/<spec>.tla with spec/<cfg>. Returns TLCResult."""
     tag = tag or os.path.splitext(os.path.basename(cfg))[0]
     meta = os.path.join(rundir, "tlc_" + tag)
@@ -181,6 +181,8 @@ def tlc(spec, cfg, rundir, workers=None, timeout=600, simulate=None, depth=None,
     jopts = "-XX:+UseParallelGC -Xmx%s -Djava.io.tmpdir=%s" % (xmx, meta)
     if dfs:
         jopts += " -Dtlc2.tool.queue.IStateQueue=StateDeque"
+    if library:
+        jopts += " -DTLA-Library=%s" % library
     w = workers if workers is not None else min(NCPU, 8)
     cmd = "java %s -cp %s tlc2.TLC -workers %s -metadir %s -config %s" % (
         jopts, TLA_CP, w, os.path.join(meta, "states"), cfg)
